@@ -165,6 +165,9 @@ func (c *FnCtx) unsupported(pos token.Pos, format string, args ...interface{}) {
 
 // oblige records an obligation: under the current hypotheses, goal must hold.
 func (c *FnCtx) oblige(st *State, kind, label string, goal string, props []string, goalText string) {
+	if strings.HasPrefix(kind, "frame") && len(c.spec.FrameProps) > 0 {
+		props = append(append([]string(nil), props...), c.spec.FrameProps...)
+	}
 	if st.dead || goal == "true" {
 		if goal == "true" && kind != "cover" {
 			// trivially true goals are still counted (constfold) so that counts are stable
